@@ -702,6 +702,59 @@ def matrices_snapshot(obj):
     return {k: numpy.array(getattr(obj, k), copy=True) for k in ("A_mat", "B_mat", "cov_mat", "stencil_coords", "X_coords")}
 
 
+def oracle_conditional(chk, quick):
+    """B carries the WHOLE conditional covariance: B·Bᵀ = Cov(X,X) − Cov(X,Z)·Cov(Z,Z)⁻¹·Cov(Z,X), measured against the size of that
+    conditional covariance (the innovation power), not against the much larger phase variance C(0) — on finely sampled screens
+    (pixel ≪ L0) the innovation is 1e-6 of the phase variance and an error of that size passes every identity stated relative to
+    C(0) while removing a fifth of the innovation.  Both sides are computed in binary64; `bound` = eps·cond(Σzz)·C(0)/‖S_cond‖ is
+    what that computation can resolve (observed on the repaired tree: element mismatch ≤ 0.12·bound, power mismatch ≤ 0.05·bound
+    for L0/pixel from 200 to 1e5); the clause is evaluated where bound ≤ 0.2."""
+    fixed = [("vk", 16, 2, 0.1, 0.2, 20.), ("fried", 17, 2, 0.05, 0.15, 25.), ("vk", 16, 2, 0.002, 0.1, 40.),
+             ("fried", 17, 2, 0.002, 0.12, 50.), ("vk", 8, 2, 0.001, 0.1, 50.), ("vk", 12, 2, 0.05, 0.2, 400.),
+             ("vk", 8, 1, 0.0005, 0.1, 50.)] + ([] if quick else [("vk", 24, 3, 0.001, 0.15, 25.), ("fried", 20, 1, 0.001, 0.2, 30.)])
+    rng = chk.rng
+    for k in range(4 if quick else 30):
+        variant = rng.choice(["vk", "fried"])
+        fixed.append((variant, rng.randint(4, 12), rng.randint(1, 3) if variant == "vk" else rng.randint(1, 2),
+                      logu(rng, 0.0005, 0.2), logu(rng, 0.05, 0.5), logu(rng, 10., 100.)))
+    for variant, size, par, px, r0, L0 in fixed:
+        tag = "%s(%d, %r, %r, %r, %s=%d)" % ("PhaseScreenVonKarman" if variant == "vk" else "PhaseScreenKolmogorov", size, px, r0, L0,
+                                           "n_columns" if variant == "vk" else "stencil_length_factor", par)
+        obj, rec = construct(variant, size, par, px, r0, L0, 7)
+        chk.oracle_cases += 1
+        chk.case(("oracle-conditional", tag))
+        if obj is None:
+            chk.count("oracle:conditional:construction-raises")
+            continue
+        st = numpy.asarray(obj.stencil_coords)
+        nx, nz = int(obj.nx_size), len(st)
+        pos = numpy.vstack([st.astype(float), numpy.array([(-1., j) for j in range(nx)])])
+        d = pos[:, None, :] - pos[None, :, :]
+        S = c_true(px * numpy.sqrt((d ** 2).sum(-1)), r0, L0)
+        Szz, Sxx, Sxz = S[:nz, :nz], S[nz:, nz:], S[nz:, :nz]
+        c0 = float(S[0, 0])
+        cond = float(numpy.linalg.cond(Szz))
+        Sc = Sxx - Sxz @ numpy.linalg.solve(Szz, Sxz.T)
+        nrm = float(numpy.abs(Sc).max())
+        bound = 2.2e-16 * cond * c0 / nrm
+        if not (numpy.isfinite(bound) and bound <= 0.2):
+            chk.count("oracle:conditional:not-resolvable-in-binary64")
+            continue
+        B = numpy.asarray(obj.B_mat, dtype=float)
+        BBt = B @ B.T
+        el = float(numpy.abs(BBt - Sc).max()) / nrm
+        pw = abs(float(numpy.trace(BBt)) / float(numpy.trace(Sc)) - 1)
+        chk.count("oracle:conditional:L0/px<=1e4" if L0 / px <= 1e4 else "oracle:conditional:L0/px>1e4")
+        chk.margins["conditional:element/bound"] = max(chk.margins.get("conditional:element/bound", 0.0), el / max(bound, 1e-12))
+        chk.margins["conditional:power/bound"] = max(chk.margins.get("conditional:power/bound", 0.0), pw / max(bound, 1e-12))
+        if not (el <= max(1e-9, 1.0 * bound) and pw <= max(1e-9, 0.5 * bound)):
+            chk.fail("identity2:conditional:" + variant, "%s: B·Bᵀ is not the conditional covariance Cov(X,X) − Cov(X,Z)Cov(Z,Z)⁻¹Cov(Z,X) of the new "
+                     "row: largest element mismatch %.3g and innovation power tr(B·Bᵀ)/tr(S_cond) − 1 = %+.3g, both relative to the "
+                     "conditional covariance (resolvable in binary64 to %.2g; L0/pixel = %.3g, ‖S_cond‖ = %.2g·C(0))"
+                     % (tag, el, float(numpy.trace(BBt)) / float(numpy.trace(Sc)) - 1, bound, L0 / px, nrm / c0),
+                     {"variant": variant, "size": size, "par": par, "px": px, "r0": r0, "L0": L0, "kind": "conditional"})
+
+
 def oracle_sequence(chk, rng, max_size):
     """several screens with the SAME class, grid, pixel scale and L0 but different r0 (and then the first r0 again) built one
     after the other in this process: the identities must hold on each (nothing learnt from one screen may be reused wrongly
@@ -838,6 +891,7 @@ def run(chk):
         oracle_instance(chk, cfg, it)
     if chk.oracle_cases < n_or // 2:
         raise RuntimeError("only %d of %d oracle configurations were in the domain: the check would pass vacuously" % (chk.oracle_cases, n_or))
+    oracle_conditional(chk, quick)
     for _ in range(4 if quick else 40):
         oracle_sequence(chk, chk.rng, 16 if quick else 33)
     for _ in range(10 if quick else 120):
